@@ -222,8 +222,15 @@ def generate() -> str:
     lines.append(f"Definition fc_List : N := {lit_int(lst['format_code'], 'List')}.")
     for nm, asg in (("Binary", bina), ("Boolean", boo), ("String", stri), ("JIS8", jis), ("Array", arr), ("List", lst)):
         lines.append(f"Definition text_code_{nm} : string := {coq_str(lit_str(asg['text_code'], nm))}.")
-    lines.append(f"Definition coding_String : string := {coq_str(lit_str(stri['coding'], 'String.coding'))}.")
-    lines.append(f"Definition coding_JIS8 : string := {coq_str(lit_str(jis['coding'], 'JIS8.coding'))}.")
+    def coding(node, what):
+        raw = lit_str(node, what)
+        norm = {"latin1": "latin-1", "latin-1": "latin-1", "iso-8859-1": "latin-1", "jis_8": "jis_8"}.get(raw.lower())
+        if norm is None:
+            raise TranslationError(f"{what}: codec {raw!r} is not modelled")
+        return coq_str(norm)
+
+    lines.append(f"Definition coding_String : string := {coding(stri['coding'], 'String.coding')}.")
+    lines.append(f"Definition coding_JIS8 : string := {coding(jis['coding'], 'JIS8.coding')}.")
     if name_list(bina["preferred_types"], "Binary") != ["bytes", "bytearray"]:
         raise TranslationError("Binary.preferred_types changed")
     if name_list(boo["preferred_types"], "Boolean") != ["bool"]:
